@@ -16,6 +16,12 @@ CLAIMED={
         "Crash = process death (os.Exit in the wrapping engine); crash points are DVID->store calls, not single Badger transactions; workloads are sampled (repo-level and single-key operations).",T+"exhaustive crash-point enumeration per sampled workload + recovery oracles","DESIGN.md 7/C04"),
  "C11":("exploration","Concurrent batches of 2-4 colliding requests interleaved by the seeded scheduler at every storage call and every Badger transaction; key-value histories are checked for linearizability with porcupine against a per-key register model; concurrent new-version/branch/commit/merge requests are checked against the graph invariants (one child per branch, every acknowledged child present).",
         "Interleavings are decided at DVID->store calls and Badger transaction starts; porcupine Unknown is inconclusive; compound types (annotations, label merges/cleaves, neuron annotations) are added as their models are built.",T+"seeded schedule search + linearizability checking (porcupine) + invariant oracles","DESIGN.md 7/C11"),
+ "C08":("exploration","Seeded proofreading histories (ingest, mutating writes, merge, cleave, supervoxel split incl. volumes partly outside the supervoxel, renumber, next-label) over branched version trees with restarts; after operations and finally on all versions every read endpoint is compared voxel-exactly with a dense supervoxel array + supervoxel->body map reference model.",
+        "Version DAGs of label histories are trees; body split and POST blocks / ingest-supervoxels / indices / mappings ingestion are not exercised by this check; parent-side decoders for RLE, block streams and the label-index protobuf are trusted.",T+"seeded history search + dense reference-model oracle","DESIGN.md 7/C08"),
+ "C12":("exploration","Allocation-heavy label histories with concurrent allocating batches, clean/kill restarts, process exit at a random write of an allocating operation, acknowledged ingests killed before their background work ran, and a family that crosses the 100-id persist-ahead stride inside one lifetime; over the whole multi-lifetime history labels, mutation ids and version ids must be unique, increasing in issue order and above every label present.",
+        "Instance and repo ids are not exposed by the API and are only covered indirectly; after a crash the model is re-synchronised from the server (the interrupted operation's effect is unknown).",T+"seeded history + schedule + crash search, global uniqueness/monotonicity oracle","DESIGN.md 7/C12"),
+ "C14":("exploration","Label histories on volumes with MaxDownresLevel 1-3 (ingests and mutating writes of random block boxes incl. negative block coordinates, splits, body splits, concurrent sibling ingests); each mutation is issued unsettled and the instance's idle flags are probed at scheduler-chosen instants: whenever the volume reports idle the whole pyramid is read and every level must equal the reference 2x2x2 vote over the level beneath it (as read back from the server); checked again after settling and on the parent version.",
+        "Level n+1 is compared with level n as stored by the server (not with the model); idle = Updating()/AnyScaleUpdating() as polled by BlockOnUpdating, observed through an in-process probe.",T+"seeded history + schedule search, relational level-to-level oracle, idle-state probing","DESIGN.md 7/C14"),
 }
 NA={
  "C09":"pure function of its input at package level (block codec): no schedule, clock, fault, crash point or history for a simulator to decide (DESIGN.md section 8)",
